@@ -40,6 +40,7 @@ type HTTPS struct {
 	IPv4Hint      []netip.Addr
 	IPv6Hint      []netip.Addr
 	ECH           []byte
+	ECHEmpty      bool // the ech parameter is present with a value of zero bytes (ECH must be empty)
 }
 
 // RR is one resource record. Owner and Target are lower-case without trailing dot.
@@ -308,6 +309,8 @@ func (h *HTTPS) RData() ([]byte, error) {
 	}
 	if len(h.ECH) > 0 {
 		param(5, h.ECH)
+	} else if h.ECHEmpty {
+		param(5, nil)
 	}
 	if len(h.IPv6Hint) > 0 {
 		var v []byte
